@@ -14,6 +14,10 @@ def usage_actions(cfg, via="stream", argv=()):
             acts.append({"n": "HelpArg", "key": [a["s"]]})
         if a["l"]:
             acts.append({"n": "HelpArg", "key": a["l"]})
+            # beginnings of the long key: designate the argument when unambiguous (the handler accepts abbreviations)
+            for n in sorted({2, len(a["l"]) // 2, len(a["l"]) - 1}):
+                if 2 <= n < len(a["l"]):
+                    acts.append({"n": "HelpArg", "key": a["l"][:n]})
     acts.append({"n": "HelpArg", "key": T("nosuchkey")})
     acts.append({"n": "HelpArg", "key": T("Q")})
     return acts
@@ -53,6 +57,7 @@ def run(tier):
             if a["kind"] in ("int", "str", "dbl") and r_.random() < 0.3:
                 a["printdef"] = r_.choice(["yes", "no"])
             a["desc"] = T("D%d %s" % (k + 1, " ".join(r_.choice(WORDS) for _ in range(r_.choice([0, 1, 3, 10, 40])))))
+            a["nodesc"] = r_.random() < 0.12          # defined with an empty description text
         # deprecated arguments cannot be required/excluded partners in a sensible set-up, keep constraints
         cfg.update({"usagehidden": r_.random() < 0.4, "usagedepr": r_.random() < 0.4, "usageshort": r_.random() < 0.5,
                     "usagelong": r_.random() < 0.5, "help": True})
